@@ -54,7 +54,7 @@ type treeDecl struct {
 // gives nodes an alias; optMask marks nodes (bit 0 = parser) subcommands-optional;
 // clash = 0 none, else node (clash-1)/2 uses its parent's (even) or grandparent's (odd) flag letter.
 // sameName: 0 none, else the last node takes the name of node 0 when they are not siblings.
-func buildTree(par []int, aliasMask, optMask, clash int, sameName bool, exec bool) *treeDecl {
+func buildTree(par []int, aliasMask, optMask, clash int, sameName bool, exec bool, reqNode, posNode int) *treeDecl {
 	n := len(par)
 	letters := "abcd"
 	top := &decl.Cmd{Name: "app", Opts: []*decl.Opt{{Field: "P", Short: "p", Long: "pflag", Type: decl.TBools}}}
@@ -104,6 +104,16 @@ func buildTree(par []int, aliasMask, optMask, clash int, sameName bool, exec boo
 			cmds[par[i]].Cmds = append(cmds[par[i]].Cmds, c)
 		}
 	}
+	if reqNode > n || posNode > n {
+		return nil
+	}
+	if reqNode > 0 {
+		cmds[reqNode-1].Opts[0].Required = "yes"
+	}
+	if posNode > 0 {
+		cmds[posNode-1].Pos = []*decl.PosArg{{Field: "First", Type: decl.TString}, {Field: "Rest", Type: decl.TStrings}}
+		cmds[posNode-1].PosRequired = "yes"
+	}
 	for i, c := range cmds {
 		if c.SubOptional && len(c.Cmds) == 0 {
 			_ = i
@@ -138,7 +148,7 @@ func buildTree(par []int, aliasMask, optMask, clash int, sameName bool, exec boo
 func init() {
 	shapes := treeShapes(4)
 	cache := map[string]*treeDecl{}
-	build := func(c *explore.Ctx, exec bool) (*treeDecl, string, bool) {
+	buildX = func(c *explore.Ctx, exec bool, extras bool) (*treeDecl, string, bool) {
 		si := c.Choose(len(shapes))
 		par := shapes[si]
 		n := len(par)
@@ -155,17 +165,23 @@ func init() {
 		om := c.Deviate(1 << uint(n+1))
 		cl := c.Deviate(1 + 2*n)
 		sn := c.Deviate(2) == 1
-		key := fmt.Sprintf("s%d/a%d/o%d/c%d/n%v/x%v", si, am, om, cl, sn, exec)
+		rq, ps := 0, 0
+		if extras {
+			rq = c.Choose(n + 1)
+			ps = c.Choose(n + 1)
+		}
+		key := fmt.Sprintf("s%d/a%d/o%d/c%d/n%v/x%v/r%d/p%d", si, am, om, cl, sn, exec, rq, ps)
 		td, ok := cache[key]
 		if !ok {
 			if len(cache) > 200 {
 				cache = map[string]*treeDecl{}
 			}
-			td = buildTree(par, am, om, cl, sn, exec)
+			td = buildTree(par, am, om, cl, sn, exec, rq, ps)
 			cache[key] = td
 		}
 		return td, key, td != nil
 	}
+	build := func(c *explore.Ctx, exec bool) (*treeDecl, string, bool) { return buildX(c, exec, false) }
 	c08build = build
 
 	body := func(c *explore.Ctx) {
@@ -264,6 +280,7 @@ func init() {
 }
 
 var c08build func(c *explore.Ctx, exec bool) (*treeDecl, string, bool)
+var buildX func(c *explore.Ctx, exec bool, extras bool) (*treeDecl, string, bool)
 
 func describeTree(c *decl.Cmd) interface{} {
 	m := map[string]interface{}{"name": c.Name}
